@@ -19,7 +19,7 @@ def reader_cfgs(rng, n=4, loaders=None):
 def writer_cfg(rng, thorough_pairs=None):
     d, i = thorough_pairs if thorough_pairs else rng.choice([(2, 0), (0, 0), (1, 3), (3, 2), (2, 2)])
     bloom = rng.choice([0, 0, 1, 1000000])
-    return {"dcomp": d, "icomp": i, "bloomn": bloom, "wbuf": rng.choice([16, 4096, 1 << 22]), "writer": rng.choice(["stream", "stream", "skiplist"])}
+    return {"dcomp": d, "icomp": i, "bloomn": bloom, "bloomfp": rng.choice([0, 0, 0.4, 0.05, 1e-9]), "wbuf": rng.choice([16, 4096, 1 << 22]), "writer": rng.choice(["stream", "stream", "skiplist"])}
 
 
 def run_batches(o, binary, batches, tag, sigprefix="sst"):
